@@ -104,11 +104,13 @@ class NativeVC:
         return tuple(self._mk_opaque(tag, ident) for ident in self._get(name))
 
     def _mk_opaque(self, tag, ident):
-        key = (tag if tag in ("addr", "option") else "obj", ident)
+        key = (tag if tag in ("addr", "option", "host") else "obj", ident)
         if key not in self._intern:
             k = len([1 for (t, _) in self._intern if t == key[0]])
             if tag == "addr":
                 self._intern[key] = ("10.9.%d.%d" % (k // 250, k % 250 + 1), 30490)
+            elif tag == "host":
+                self._intern[key] = "10.8.%d.%d" % (k // 250, k % 250 + 1)
             elif tag == "option":
                 import someip.header
 
@@ -117,7 +119,16 @@ class NativeVC:
                 self._intern[key] = _Opaque(tag, k)
         return self._intern[key]
 
+    def _any_from_json(self, j):
+        if isinstance(j, list):
+            return tuple(self._any_from_json(x) for x in j)
+        if isinstance(j, str) and j.startswith("Obj!"):
+            return self._mk_opaque("host", j)
+        return j
+
     def _from_json(self, d, j):
+        if d == "any":
+            return self._any_from_json(j)
         if d == "int":
             return int(j)
         if d == "bool":
@@ -174,6 +185,15 @@ class NativeVC:
 
     def body(self, f):
         return f
+
+    def run(self, coro):
+        import asyncio
+
+        loop = asyncio.new_event_loop()
+        try:
+            return loop.run_until_complete(coro)
+        finally:
+            loop.close()
 
     def stash(self, name, value):
         self._stash[name] = value
@@ -429,6 +449,12 @@ class GenVC(NativeVC):
 
     def _gen_json(self, d):
         r = self.rng
+        if d == "any":
+            host = self._ident("host")
+            port = r.choice([30490, 30491])
+            if r.random() < 0.5:
+                return [host, port]
+            return [host, port, 0, r.randrange(3)]
         if d == "int":
             return r.choice([0, 1, 2, 0xFFFE, 0xFFFF, r.randrange(0x10000)])
         if d == "bool":
